@@ -123,6 +123,19 @@ def find_fn(fns, pattern, sig=None):
 # ---- source-level struct / enum layouts (field index <-> name, variant name -> discriminant) ----
 
 
+def parse_consts(paths):
+    """simple named integer constants: `pub const NAME: usize = 512;` -> {NAME: (512, 'usize')}"""
+    consts = {}
+    for p in paths:
+        try:
+            src = open(p, encoding="utf-8").read()
+        except OSError:
+            continue
+        for m in re.finditer(r"\bconst\s+([A-Z][A-Z0-9_]*)\s*:\s*(\w+)\s*=\s*([0-9][0-9_]*)\s*;", src):
+            consts.setdefault(m.group(1), (int(m.group(3).replace("_", "")), m.group(2)))
+    return consts
+
+
 def parse_layouts(paths):
     structs, enums = {}, {}
     for p in paths:
@@ -277,7 +290,8 @@ class Path:
 
 
 class Executor:
-    def __init__(self, fns, structs, enums, inline=None, max_visits=3, max_paths=4000):
+    def __init__(self, fns, structs, enums, inline=None, max_visits=3, max_paths=4000, consts=None):
+        self.consts = consts or {}
         self.fns = fns
         self.structs = structs
         self.enums = enums
@@ -496,6 +510,11 @@ class Executor:
         if m:
             t = m.group(2)
             return z3.BitVecVal(int(m.group(1)), INT_BITS[t])
+        last = c.split("::")[-1]
+        if last in self.consts and (ty is None or norm_type(ty) in INT_BITS or True):
+            val, cty = self.consts[last]
+            w = INT_BITS.get(norm_type(ty or cty or "usize"), INT_BITS.get(norm_type(cty or "usize"), 64))
+            return z3.BitVecVal(val, w)
         m = re.match(r"(\w+(?:::\w+)*)::(\w+)$", c)
         if m and m.group(2) in self.enums.get(m.group(1).split("::")[-1], {}):
             a = Agg(c)
@@ -525,6 +544,17 @@ class Executor:
         if rhs.startswith("no_retag "):
             rhs = rhs[len("no_retag "):]
         lty = self.place_type(st, lhs)
+        pm0 = re.match(r"PtrMetadata\((?:move|copy) (.*)\)$", rhs)
+        if pm0:
+            v = self.read_place(st, pm0.group(1))
+            if isinstance(v, Ref):
+                cont, key = self.resolve(st, list(v.path))
+                tgt = cont.get(key)
+                if isinstance(tgt, Agg) and "#len" in tgt:
+                    self.write_place(st, lhs, tgt["#len"])
+                    return
+            self.write_place(st, lhs, self.ctx.fresh("usize", "ptrmeta"))
+            return
         # references
         m = re.match(r"&(mut |raw const |raw mut )?(.*)$", rhs)
         if m and not rhs.startswith("&&"):
@@ -642,7 +672,7 @@ class Executor:
                     sub[i] = v
                 a[("as", vname)] = sub
             else:
-                order = self.structs.get(sname)
+                order = self.structs.get(sname) or {"Range": ["start", "end"], "RangeFrom": ["start"], "RangeTo": ["end"]}.get(sname)
                 if order is None:
                     raise Unsupported(f"struct layout of {sname} unknown")
                 for k, v in fields.items():
@@ -652,7 +682,7 @@ class Executor:
             self.write_place(st, lhs, a)
             return
         tm = re.match(r"([A-Z]\w*)(?:::<.*?>)?\((.*)\)$", rhs)
-        if tm and tm.group(1) not in BUILTIN_VARIANTS:
+        if tm and tm.group(1) not in BUILTIN_VARIANTS and tm.group(1) not in ("PtrMetadata", "Len", "ShallowInitBox", "CopyForDeref", "Repeat", "UnaryOp", "NullaryOp", "Cast"):
             # tuple-struct constructor, e.g. `OutgoingChannel(move _22)`
             a = Agg(tm.group(1))
             for i, x in enumerate(self.split_args(tm.group(2))):
@@ -673,6 +703,18 @@ class Executor:
             a["#d"] = z3.BitVecVal(self.enums[ename][rhs], 64)
             self.write_place(st, lhs, a)
             return
+        pm = re.match(r"PtrMetadata\((?:move|copy) (.*)\)$", rhs)
+        if pm:
+            try:
+                v = self.read_place(st, pm.group(1))
+                if isinstance(v, Ref):
+                    cont, key = self.resolve(st, list(v.path))
+                    tgt = cont.get(key)
+                    if isinstance(tgt, Agg) and "#len" in tgt:
+                        self.write_place(st, lhs, tgt["#len"])
+                        return
+            except Unsupported:
+                pass
         if re.match(r"\[.*\]$", rhs) or rhs.startswith("PtrMetadata") or rhs.startswith("Len(") or " as " in rhs or rhs.startswith("ShallowInitBox") or rhs.startswith("{closure") or rhs.startswith("{coroutine") or rhs.startswith("{async"):
             self.write_place(st, lhs, self.ctx.fresh(lty or "?", "opaque"))
             return
@@ -751,9 +793,9 @@ class Executor:
         return None
 
     def _simple(self, path):
-        path = re.sub(r"<.*>", "", path.strip())
-        path = re.sub(r"<.*", "", path)
-        return path.split("::")[-1].strip()
+        path = re.sub(r"(::)?<.*>", "", path.strip())
+        path = re.sub(r"(::)?<.*", "", path)
+        return path.rstrip(":").split("::")[-1].strip()
 
     def _canon(self, st, place):
         """canonical storage path of a place (follows refs)"""
